@@ -410,7 +410,13 @@ func checkMain(args []string) int {
 			// counterexamples found before the exploration broke off are still concrete, replayable violations
 		}
 		// vacuity: every harness must reach at least one marker, and all markers listed in its name contract
-		if len(r.Reached) == 0 && r.Status != "error" {
+		for _, x := range r.Expected {
+			if _, ok := r.Reached[x]; !ok && r.Status == "ok" {
+				fmt.Printf("ENGINE-INCONCLUSIVE property=%s harness=%s: the marker %q the harness declares as its subject was not reachable (partly vacuous harness)\n", prop, r.Name, x)
+				exit = 2
+			}
+		}
+		if len(r.Reached) == 0 && r.Status == "ok" {
 			fmt.Printf("ENGINE-INCONCLUSIVE property=%s harness=%s: no Reach marker was reachable (vacuous harness)\n", prop, r.Name)
 			exit = 2
 		}
